@@ -72,7 +72,10 @@ Inductive op :=
 | ODelete (t : nat) (c : nat) (v : val)              (* DELETE FROM t WHERE c = v *)
 | OUpdate (t : nat) (c : nat) (v : val) (c' : nat) (v' : val)   (* UPDATE t SET c' = v' WHERE c = v *)
 | OClear (t : nat)                                   (* DELETE FROM t / DROP + CREATE *)
-| OIndex (t : nat)                                   (* CREATE / DROP INDEX: no effect on contents *)
+| OIndex (t : nat)                                   (* CREATE / DROP INDEX, or a statement that fails: no effect *)
+(* INSERT into t with the triggers  BEFORE INSERT: SET NEW.c = (SELECT MAX(v) FROM lg)  and
+   AFTER INSERT: INSERT INTO lg VALUES (NEW.c + 1): every row fired sees the log as left by the previous row *)
+| OInsertLog (t c lg : nat) (rows : list row)
 | OQuery (sid : nat) (q : query)
 | OPrepare (sid : nat) (name : nat) (q : query)
 | OExecute (sid : nat) (name : nat).
@@ -90,8 +93,26 @@ Fixpoint set_nth (c : nat) (v : val) (r : row) : row :=
 Definition upd_table (t : nat) (f : list row -> list row) (d : db) : db :=
   map (fun it => if Nat.eqb (fst it) t then (fst (snd it), f (snd (snd it))) else snd it) (combine (seq 0 (length d)) d).
 
+(* MAX(v) over the first column of the log table (NULL when it has no integer) *)
+Definition log_max (lg : nat) (d : db) : val :=
+  match nth_error d lg with
+  | Some (_, rows) =>
+      fold_left (fun acc r => match acc, r with
+                              | VInt a, VInt b :: _ => VInt (Z.max a b)
+                              | VNull, VInt b :: _ => VInt b
+                              | _, _ => acc
+                              end) rows VNull
+  | None => VNull
+  end.
+
+Definition insert_logged (t c lg : nat) (d : db) (r : row) : db :=
+  let m := log_max lg d in
+  let d1 := upd_table t (fun old => old ++ [set_nth c m r]) d in
+  upd_table lg (fun old => old ++ [[match m with VInt z => VInt (Z.add z 1%Z) | _ => VNull end]]) d1.
+
 Definition apply_dml (o : op) (d : db) : db :=
   match o with
+  | OInsertLog t c lg rows => fold_left (insert_logged t c lg) rows d
   | OInsert t rows => upd_table t (fun old => old ++ rows) d
   | ODelete t c v => upd_table t (filter (fun r => negb (matches c v r))) d
   | OUpdate t c v c' v' => upd_table t (map (fun r => if matches c v r then set_nth c' v' r else r)) d
